@@ -23,7 +23,7 @@ func init() {
 		Assumptions: []string{"root", "add vs modify is not demanded", "the hard-link timing exception of C02 applies", "children of a directory replaced by a non-directory vanish with the parent's event"},
 		Cases: func(tier string) int {
 			if tier == "thorough" {
-				return 30000
+				return 200000
 			}
 			return 2000
 		},
